@@ -3,7 +3,8 @@ Line protocol for C05.
   {"op":"wrap","p":[…],"L":[…]}                                   -> Geometry.wrap            (pbc_complete)
   {"op":"take_step","coord":[…],"v":[…],"step":r,"L":[…]}         -> Engine.takeStep          (_take_step)
   {"op":"update", <engine fields as in C16>, "W":{"stepFudge":r|null,"maxForce":r|null,"maxiter":k|null},
-      "bundle":[[…],…],"choices":[…],"cur":g,"prev":g,"excl":[…]} -> Engine.updatePositions   (update_positions)
+      "pre":[[g,[…],start],…],"bundle":[[…],…],"choices":[…],"cur":g,"prev":g,"excl":[…]}
+                                                                  -> Engine.updatePositions   (update_positions)
   {"op":"start", <engine fields>, "W":…, "grid":[[…],…],"k":k,"first":g,"excl":[…]}
                                                                   -> Engine.placeStart        (_random_walk start)
   {"op":"placement", <engine fields; "init" = positions before the call>, "maxForce":r,"point":[…],"g":g,
@@ -66,7 +67,17 @@ def handle (j : Json) : Except String Json := do
     let cur ← (← j.getObjVal? "cur").getNat?
     let prev ← (← j.getObjVal? "prev").getNat?
     let excl ← natList (← j.getObjVal? "excl")
-    let s := build P pos0
+    -- optional "pre": [[g, [x,y,z], start], …] = add_positions calls issued before the step (multi-tree states)
+    let pre ← match optField j "pre" with
+      | some v => do
+        let arr ← v.getArr?
+        arr.toList.mapM fun e => do
+          let g ← (← e.getArrVal? 0).getNat?
+          let p ← v3OfJson (← e.getArrVal? 1)
+          let st ← (← e.getArrVal? 2).getBool?
+          pure (g, p, st)
+      | none => pure []
+    let s := pre.foldl (fun s (e : Nat × V3 × Bool) => add P s e.1 e.2.1 e.2.2) (build P pos0)
     match updatePositions P W s (fun _ => true) bundle choices cur prev excl with
     | none => pure (Driver.okJson [("point", Json.null), ("step", Driver.ratToJson (stepLength P W prev cur)),
                                    ("snap", snapToJson P s)])
